@@ -19,7 +19,7 @@ ASSUMPTIONS = ['unitless (valueunit None) spectra stored in m / um / nm / angstr
                "Simpson's rule is exercised only with uniformly spaced centres and data, as the property scopes it"]
 PLAN = {'quick': {'gen': 8}, 'thorough': {'gen': 16, 'tests': 1, 'docs': 1}}
 REQUIRED_BUCKETS = ['bin:density', 'bin:density:unit-differs', 'bin:spiky', 'bin:narrow-line', 'crop:outside-data', 'bin:integer-centres', 'values:small-int', 'bin:zero-spectrum', 'integrate:bright-band-below-bounds', 'wave:integer-dtype', 'unit:m', 'unit:um', 'unit:nm', 'unit:angstrom', 'bin:unit-same', 'bin:unit-differs', 'integrate:trapz', 'integrate:simps', 'bin:trapz', 'bin:simps', 'ends:symmetric', 'ends:inside',
-                    'preserve:True', 'preserve:False', 'grid:nonuniform', 'op:crop', 'op:trim', 'op:pad', 'op:append', 'value:narrow-dtype', 'resample:short-narrow', 'value:signed', 'bin:narrow-float-centres', 'bin:fill-pair', 'wave:narrow-float', 'integrate:wave-narrow-float', 'integrate:wave-integer',
+                    'preserve:True', 'preserve:False', 'grid:nonuniform', 'op:crop', 'op:trim', 'op:pad', 'op:append', 'value:narrow-dtype', 'resample:short-narrow', 'value:signed', 'bin:narrow-float-centres', 'bin:fill-pair', 'wave:narrow-float', 'integrate:wave-narrow-float', 'integrate:wave-integer', 'integrate:extended-precision',
                     'op:resample', 'op:raised', 'history:len>=6']
 REQUIRED_ANCHORS = ['probe:Spectrum.crop', 'probe:Spectrum.trim', 'probe:Spectrum.pad', 'probe:Spectrum.append',
                     'probe:Spectrum.resample', 'anchor:Spectrum.integrate', 'anchor:Spectrum.bin', 'anchor:Spectrum.ends']
@@ -260,7 +260,7 @@ def workload(ctx, lentil):
     # ---- wavelength grids held in single / half precision: the same numbers as doubles, the same integral ---------------------
     # (and integer-typed grids - whole nanometres from a file, np.arange(400, 701): bounds between the samples are still fractions)
     for i in range(max(12, n // 6)):
-        wf = [np.float32, np.float16, np.int32, np.uint16, np.int64, np.uint64][i % 6]
+        wf = [np.float32, np.float16, np.int32, np.uint16, np.int64, np.uint64, np.longdouble, np.float64][i % 8]
         m = int(rng.integers(3, 12))
         integer = np.dtype(wf).kind in 'iu'
         if integer:
@@ -273,6 +273,10 @@ def workload(ctx, lentil):
         if np.any(np.diff(wn.astype(float)) <= 0):
             continue
         vv = rng.uniform(0.5, 3, size=m)
+        if i % 8 >= 6:
+            # extended precision columns (values, wavelengths or both): the same numbers
+            vv = vv.astype(np.longdouble)
+            ctx.bucket('integrate:extended-precision')
         tag = 'wave-integer' if integer else 'wave-narrow-float'
         ctx.case({'integrate-narrow-wave': np.dtype(wf).name, 'n': m}, ['integrate:' + tag])
         try:
@@ -280,13 +284,13 @@ def workload(ctx, lentil):
                 lo_, hi_ = float(wn[0]) + 0.37 * float(wn[1] - wn[0]), float(wn[-1]) - 0.41 * float(wn[-1] - wn[-2])
                 for bounds in ((None, None), (lo_, hi_)):
                     Ia = float(S(wn.copy(), vv.copy()).integrate(bounds[0], bounds[1], mth))
-                    Ib = float(S(wn.astype(float), vv.copy()).integrate(bounds[0], bounds[1], mth))
+                    Ib = float(S(wn.astype(float), vv.astype(float)).integrate(bounds[0], bounds[1], mth))
                     ctx.close('integrate:exact-pl', np.array([Ia]), np.array([Ib]), 1e-12, f'integrate|{tag}|{mth}',
                               'the integral over a wavelength grid held in single / half precision or an integer type differs from that over the same numbers as doubles',
                               {'dtype': np.dtype(wf).name, 'method': mth, 'bounds': list(bounds)}, scale=abs(Ib) + 1e-300)
                     if mth == 'trapz':
                         L_, H_ = (float(wn[0]), float(wn[-1])) if bounds[0] is None else bounds
-                        ex_ = sm.integral_pl(wn.astype(float), vv, L_, H_)
+                        ex_ = sm.integral_pl(wn.astype(float), vv.astype(float), L_, H_)
                         ctx.close('integrate:exact-pl', np.array([Ia]), np.array([ex_]), 1e-11, f'integrate|{tag}|exact',
                                   'trapezoid integration over a grid held in a narrow / integer type is not exact for piecewise-linear data', 
                                   {'dtype': np.dtype(wf).name, 'bounds': list(bounds)}, scale=abs(ex_) + 1e-300)
